@@ -68,7 +68,8 @@ try:
         p = subprocess.run(['/verif/bin/check', c, '--tier', 'quick'], capture_output=True, text=True, env=e2, timeout=3000)
         lines = [l for l in p.stdout.splitlines() if l.startswith(('VIOLATION', 'KNOWN-FINDING', 'property=')) or l.strip().startswith('key=')]
         meta['checks'][c] = {'exit': p.returncode, 'violations': sum(1 for l in lines if l.startswith('VIOLATION')),
-                             'first': [l[:300] for l in lines[:4]]}
+                             'violation_keys': [l.strip()[:300] for l in lines if l.strip().startswith('key=')][:8],
+                             'first': [l[:300] for l in lines if not l.startswith('KNOWN-FINDING')][:4]}
     shutil.rmtree(out, ignore_errors=True)
 finally:
     subprocess.run(['git', '-C', '/repo', 'worktree', 'remove', '--force', wt])
@@ -77,4 +78,4 @@ json.dump(meta, open(os.path.join(dst, 'meta.json'), 'w'), indent=1)
 ok = meta.get('patch_applies') and meta['demo_unchanged_rc'] == 0 and meta['demo_patched_rc'] != 0 and not meta['baseline_with_patch']['missing']
 print(json.dumps({k: meta[k] for k in ('patch_applies', 'demo_unchanged_rc', 'demo_patched_rc')}), 'baseline_missing=', meta['baseline_with_patch']['missing'][:3], 'CONFIRMED' if ok else 'NOT-CONFIRMED')
 for c, v in meta['checks'].items():
-    print(' ', c, 'exit', v['exit'], 'violations', v['violations'], (v['first'] or [''])[1 if len(v['first']) > 1 else 0][:200])
+    print(' ', c, 'exit', v['exit'], 'violations', v['violations'], (v['violation_keys'] or v['first'] or [''])[0][:200])
